@@ -1689,14 +1689,17 @@ fn compile_expr(
                 ty
             );
         }
-        EInherentMethod { ty, .. } => {
-            // EInherentMethod should only appear as the func of ECall
-            // If it appears standalone, we can't resolve the implementation without knowing the self type
-            panic!(
-                "EInherentMethod should only appear as the function in ECall, not standalone. Type: {:?}",
-                ty
-            );
-        }
+        // An inherent method used as a value (`let add = C::add;`) is the function the call form
+        // `C::add(c, 1)` names.
+        EInherentMethod {
+            receiver_ty,
+            method_name,
+            ty,
+            ..
+        } => core::Expr::EVar {
+            name: inherent_method_fn_name(receiver_ty, &method_name.0),
+            ty: ty.clone(),
+        },
         EToDyn {
             trait_name,
             for_ty,
